@@ -49,5 +49,5 @@ Spec == Init /\ [][Next]_vars
 
 \* C10: all unrolled repetitions hold identical parameters, initially and after every update history
 AllCopiesEqual == \A c \in 1..loops : copies[c] = copies[1] /\ bias[c] = bias[1]
-Bounded == \A c \in 1..loops : copies[c] \in -100000..100000
+Bounded == \A c \in 1..loops : copies[c] \in -200..200 /\ bias[c] \in -200..200   \* keeps products of up to 4 copies inside 32-bit integers
 =============================================================================
